@@ -304,6 +304,13 @@ func (p *Program) checkOwnership() []string {
 	if len(p.specs.Owned) == 0 {
 		return nil
 	}
+	seenMsg := map[string]bool{}
+	add := func(m string) {
+		if !seenMsg[m] {
+			seenMsg[m] = true
+			out = append(out, m)
+		}
+	}
 	fieldName := func(fa *ssa.FieldAddr) string {
 		stt := fa.X.Type().Underlying().(*types.Pointer).Elem()
 		return typeStr(stt) + "." + stt.Underlying().(*types.Struct).Field(fa.Field).Name()
@@ -320,8 +327,28 @@ func (p *Program) checkOwnership() []string {
 				switch ins := ins.(type) {
 				case *ssa.Store:
 					if fa, ok := ins.Addr.(*ssa.FieldAddr); ok && p.specs.Owned[fieldName(fa)] {
+						if _, isSlice := ins.Val.Type().Underlying().(*types.Slice); isSlice {
+							// owned slice: the stored value is nil, freshly made, or an append to the field's own value
+							okStore := false
+							switch v := ins.Val.(type) {
+							case *ssa.MakeSlice:
+								okStore = true
+							case *ssa.Const:
+								okStore = v.Value == nil
+							case *ssa.Call:
+								if bi, isB := v.Call.Value.(*ssa.Builtin); isB && bi.Name() == "append" {
+									okStore = true
+								}
+							case *ssa.Slice:
+								okStore = true
+							}
+							if !okStore {
+								add(fmt.Sprintf("%s: store of an aliased slice into owned field %s (%s)", fn.String(), fieldName(fa), posStr(p.fset, ins.Pos())))
+							}
+							continue
+						}
 						if _, ok := ins.Val.(*ssa.MakeMap); !ok {
-							out = append(out, fmt.Sprintf("%s: store of a non-fresh map into owned field %s (%s)", fn.String(), fieldName(fa), posStr(p.fset, ins.Pos())))
+							add(fmt.Sprintf("%s: store of a non-fresh map into owned field %s (%s)", fn.String(), fieldName(fa), posStr(p.fset, ins.Pos())))
 						}
 					}
 				case *ssa.UnOp:
@@ -329,16 +356,26 @@ func (p *Program) checkOwnership() []string {
 					if !ok || ins.Op != token.MUL || !p.specs.Owned[fieldName(fa)] {
 						continue
 					}
+					_, isSliceField := ins.Type().Underlying().(*types.Slice)
 					for _, r := range *ins.Referrers() {
 						switch r := r.(type) {
 						case *ssa.Lookup, *ssa.MapUpdate, *ssa.Range, *ssa.DebugRef:
+						case *ssa.IndexAddr, *ssa.Slice:
+							if !isSliceField {
+								add(fmt.Sprintf("%s: unexpected use of owned field %s", fn.String(), fieldName(fa)))
+							}
+						case *ssa.Store:
+							// writing the field's own (appended) value back is checked at the store
 						case *ssa.Call:
-							if bi, ok := r.Call.Value.(*ssa.Builtin); ok && (bi.Name() == "len" || bi.Name() == "delete") {
+							if bi, ok := r.Call.Value.(*ssa.Builtin); ok && (bi.Name() == "len" || bi.Name() == "delete" || bi.Name() == "cap") {
 								continue
 							}
-							out = append(out, fmt.Sprintf("%s: map of owned field %s escapes into a call (%s)", fn.String(), fieldName(fa), posStr(p.fset, r.Pos())))
+							if bi, ok := r.Call.Value.(*ssa.Builtin); ok && isSliceField && (bi.Name() == "copy" && len(r.Call.Args) == 2 && r.Call.Args[1] == ssa.Value(ins) || bi.Name() == "append") {
+								continue
+							}
+							add(fmt.Sprintf("%s: map of owned field %s escapes into a call (%s)", fn.String(), fieldName(fa), posStr(p.fset, r.Pos())))
 						default:
-							out = append(out, fmt.Sprintf("%s: map of owned field %s escapes (%T at %s)", fn.String(), fieldName(fa), r, posStr(p.fset, ins.Pos())))
+							add(fmt.Sprintf("%s: map of owned field %s escapes (%T at %s)", fn.String(), fieldName(fa), r, posStr(p.fset, ins.Pos())))
 						}
 					}
 				case *ssa.MakeMap:
@@ -357,7 +394,7 @@ func (p *Program) checkOwnership() []string {
 							case *ssa.Store, *ssa.DebugRef, *ssa.MapUpdate:
 								_ = r
 							default:
-								out = append(out, fmt.Sprintf("%s: map made for an owned field is also used elsewhere (%T)", fn.String(), r))
+								add(fmt.Sprintf("%s: map made for an owned field is also used elsewhere (%T)", fn.String(), r))
 							}
 						}
 					}
